@@ -188,6 +188,11 @@ def check_laws(ops, impl_line):
                 got = (f.get("m"), f.get("u"), f.get("j"), f.get("d"), f.get("b"))
                 if got != exp:
                     out.append(("coercion", "root %s coerces to %r, expected %r" % (d, got, exp)))
+            # == across kinds is false (pointers aside); a value equals itself unless it is a NaN
+            ef = f.get("e", "")
+            for q in range(4):
+                if len(ef) == 4 and tr_[0] != "p" and cur[q][0] != "p" and tr_[0] != cur[q][0] and ef[q] == "1":
+                    out.append(("eq-cross-kind", "root %s == root %s" % (d, roots[q][0])))
             if tr_[0] == "o" and f.get("z") != str(len(tr_[2])):
                 out.append(("size", "root %s has Size() %s" % (d, f.get("z"))))
             if tr_[0] == "a" and f.get("z") != str(len(tr_[1])):
